@@ -377,6 +377,62 @@ fn git_patch_delta(base: &[u8], delta: &[u8]) -> Option<Vec<u8>> {
     Some(out)
 }
 
+
+/// Is `body` exactly git's minimal encoding (Spec.encode_delta) of a list of in-range instructions?
+/// Parses the instructions and re-encodes them with diff-delta.c's rule: operand bytes that are
+/// zero are omitted, size 0x10000 is written as 0, inserts are 1..127 bytes.
+fn is_git_canonical(base_len: u64, body: &[u8]) -> Result<usize, String> {
+    let mut i = 0usize;
+    let mut re = Vec::new();
+    let mut n_ins = 0;
+    while i < body.len() {
+        let cmd = body[i];
+        i += 1;
+        n_ins += 1;
+        if cmd & 0x80 != 0 {
+            let mut v = [0u8; 7];
+            for k in 0..7 {
+                if cmd & (1 << k) != 0 {
+                    v[k] = *body.get(i).ok_or("truncated copy")?;
+                    i += 1;
+                }
+            }
+            let ofs = u64::from(v[0]) | u64::from(v[1]) << 8 | u64::from(v[2]) << 16 | u64::from(v[3]) << 24;
+            let mut size = u64::from(v[4]) | u64::from(v[5]) << 8 | u64::from(v[6]) << 16;
+            if size == 0 {
+                size = 0x10000;
+            }
+            if ofs + size > base_len {
+                return Err(format!("copy {ofs}+{size} outside base {base_len}"));
+            }
+            let enc = if size == 0x10000 { 0 } else { size };
+            let ops = [ofs & 255, ofs >> 8 & 255, ofs >> 16 & 255, ofs >> 24 & 255, enc & 255, enc >> 8 & 255, enc >> 16 & 255];
+            let mut c = 0x80u8;
+            let mut tail = Vec::new();
+            for (k, b) in ops.iter().enumerate() {
+                if *b != 0 {
+                    c |= 1 << k;
+                    tail.push(*b as u8);
+                }
+            }
+            re.push(c);
+            re.extend(tail);
+        } else if cmd != 0 {
+            let n = cmd as usize;
+            let lit = body.get(i..i + n).ok_or("truncated insert")?;
+            re.push(cmd);
+            re.extend_from_slice(lit);
+            i += n;
+        } else {
+            return Err("cmd 0".into());
+        }
+    }
+    if re != body {
+        return Err("not the minimal encoding".into());
+    }
+    Ok(n_ins)
+}
+
 fn same_entry(a: &Entry, b: &Entry) -> bool {
     a.header == b.header && a.decompressed_size == b.decompressed_size && a.data_offset == b.data_offset
 }
@@ -429,6 +485,17 @@ fn prop_delta(base: &[u8], delta: &[u8], target: Option<&[u8]>) -> Verdict {
     }
     if target.is_some() && want.is_none() {
         return Verdict::fail("oracle-rejects-git-delta", "");
+    }
+    if target.is_some() {
+        // the tested half of "any delta git produces": it is Spec.encode_delta of in-range instructions
+        let (_, l1) = naive_varint(delta);
+        let (_, l2) = naive_varint(&delta[l1..]);
+        if let Err(e) = is_git_canonical(base.len() as u64, &delta[l1 + l2..]) {
+            return Verdict::fail("git-delta-not-spec-encoding", e);
+        }
+        if delta[..l1] != generate::varint(base.len() as u64)[..] {
+            return Verdict::fail("git-delta-size-header", "");
+        }
     }
     match want {
         Some(w) => {
